@@ -80,6 +80,13 @@ func ParseWriteSingleRegisterRequestTCP(data []byte) (*WriteSingleRegisterReques
 		return nil, err
 	}
 	unitID := data[6]
+	if len(data) < 12 {
+		tmpErr := NewErrorParseTCP(ErrIllegalDataValue, "received data length too short to be valid packet")
+		tmpErr.Packet.TransactionID = header.TransactionID
+		tmpErr.Packet.UnitID = unitID
+		tmpErr.Packet.Function = FunctionWriteSingleRegister
+		return nil, tmpErr
+	}
 	if data[7] != FunctionWriteSingleRegister {
 		tmpErr := NewErrorParseTCP(ErrIllegalFunction, "received function code in packet is not 0x06")
 		tmpErr.Packet.TransactionID = header.TransactionID
